@@ -321,8 +321,9 @@ def run_check(prop, tier, verif_seed, nproc=None, max_wall=None, quiet=False):
     todo = []
     for b in batches:
         per_batch[b['name']] = {'n': 0, 'violations': 0}
-        for s in range(0, b['n'], chunk):
-            todo.append((b, s, min(chunk, b['n'] - s)))
+        ch = b.get('chunk', chunk)
+        for s in range(0, b['n'], ch):
+            todo.append((b, s, min(ch, b['n'] - s)))
     todo.reverse()
     stop_new = False
     max_wall = max_wall or getattr(chk, 'MAX_WALL', {}).get(tier)
